@@ -173,6 +173,12 @@ func (f *Fn) summarise(c *ssa.Call, idx int, result ssa.Value) {
 			if i == 0 && callee.Signature.Recv() != nil && f.LenSuffix != "" {
 				if path, ok := fieldPath(p); ok {
 					cands = append(cands, cand{false, Atom(path + f.LenSuffix), "result <= " + path + f.LenSuffix})
+					// ... and relative to an integer parameter (a width added to a cursor)
+					for _, q := range callee.Params[1:] {
+						if bt, ok := q.Type().Underlying().(*types.Basic); ok && bt.Info()&types.IsInteger != 0 && isIntType(q.Type()) {
+							cands = append(cands, cand{false, Atom(path + f.LenSuffix).Sub(cf.Norm(q)), "result + " + q.Name() + " <= " + path + f.LenSuffix})
+						}
+					}
 				}
 			}
 		}
